@@ -87,16 +87,18 @@ Definition obsolete_spec (r l : entry) : list msg :=
   obsolete_in r None (value_refs l)
   ++ flat_map (fun a => obsolete_in r (Some (a_name a)) (pattern_refs (a_value a))) (e_attrs l).
 
-Definition is_missing_ref (m : msg) : bool :=
-  match m_kind m with KMissRef _ => true | _ => false end.
-Definition is_obsolete_ref (m : msg) : bool :=
-  match m_kind m with KObsRef _ => true | _ => false end.
-Definition is_kind (k : kind) (m : msg) : bool :=
-  match k, m_kind m with
-  | KDupAttr, KDupAttr | KDupVariant, KDupVariant | KPlural, KPlural | KCss, KCss
-  | KObsValue, KObsValue | KMissValue, KMissValue | KMissAttr, KMissAttr | KObsAttr, KObsAttr => true
-  | _, _ => false
-  end.
+(* selecting messages by the append site they come from *)
+Definition by_kind (kf : kind -> bool) (m : msg) : bool := kf (m_kind m).
+Definition k_missing_ref (k : kind) : bool := match k with KMissRef _ => true | _ => false end.
+Definition k_obsolete_ref (k : kind) : bool := match k with KObsRef _ => true | _ => false end.
+Definition k_dup_attr (k : kind) : bool := match k with KDupAttr => true | _ => false end.
+Definition k_dup_variant (k : kind) : bool := match k with KDupVariant => true | _ => false end.
+Definition k_plural (k : kind) : bool := match k with KPlural => true | _ => false end.
+Definition is_missing_ref : msg -> bool := by_kind k_missing_ref.
+Definition is_obsolete_ref : msg -> bool := by_kind k_obsolete_ref.
+Definition is_dup_attr : msg -> bool := by_kind k_dup_attr.
+Definition is_dup_variant : msg -> bool := by_kind k_dup_variant.
+Definition is_plural : msg -> bool := by_kind k_plural.
 
 (* ---- duplicates ---------------------------------------------------------------------- *)
 Section Count.
